@@ -155,7 +155,12 @@ class Runner:
                     try:
                         env[tg.id] = ast.literal_eval(st.value)       # module-level literal constants only
                     except (ValueError, TypeError, SyntaxError, MemoryError, RecursionError):
-                        pass
+                        import builtins
+                        names = st.value.elts if isinstance(st.value, ast.Tuple) else [st.value]
+                        excs = [getattr(builtins, n.id, None) for n in names if isinstance(n, ast.Name)]
+                        if len(excs) == len(names) and excs and all(isinstance(x, type) and issubclass(x, BaseException)
+                                                                     for x in excs):
+                            env[tg.id] = tuple(excs) if isinstance(st.value, ast.Tuple) else excs[0]   # exception classes
         for mod in ("np", "math", "pynurbs", "fractions"):
             env.setdefault(mod, ExtFn(self, mod))
         for k, v in EXTRA_GLOBALS.items():
